@@ -1,5 +1,5 @@
 """C21 — the simulation time grid covers the sequence and every evaluation time (structural clauses)."""
-from ..rules import adapter, step
+from ..rules import once, adapter, step
 
 META = {
     "title": "The simulation time grid covers the sequence and every evaluation time",
@@ -26,3 +26,4 @@ def check(ctx):
     adapter.traj_reps(ctx)
     step.step_sv(ctx)
     ctx.floor("GRID", 8)
+    once.filter_tolerance(ctx)
